@@ -179,10 +179,16 @@ func checkC09(c *core.Ctx) error {
 			if d != "" {
 				// the kernels are written differently: they are still interchangeable if each of them, interpreted on its own,
 				// implements the second-order chain rule (the rule of C01.R1/R2), so a restructuring of one twin is not a defect
+				// for every input, including a receiver that is one of the operands: both must also follow the alias-safe write schedule (C08.R1)
 				bad := shadowCombinatorFailures(c, pkg, T)
-				if len(bad["(*"+T+")."+pr[0]]) == 0 && len(bad["(*"+T+")."+pr[1]]) == 0 {
-					c.OK("C09.R2", cons, "same kernel as "+pr[1], f1.Pos(), "kernels differ textually; both satisfy the chain-rule identity (C01.R1/R2)")
+				sched := shadowScheduleFailures(c, pkg, T)
+				n1, n2 := "(*"+T+")."+pr[0], "(*"+T+")."+pr[1]
+				if len(bad[n1]) == 0 && len(bad[n2]) == 0 && len(sched[n1]) == len(sched[n2]) {
+					c.OK("C09.R2", cons, "same kernel as "+pr[1], f1.Pos(), "kernels differ textually; both satisfy the chain-rule identity (C01.R1/R2) and follow the same write schedule (C08.R1)")
 					continue
+				}
+				if len(bad[n1]) == 0 && len(bad[n2]) == 0 {
+					d = "kernels differ and only one of them keeps the alias-safe write schedule (receiver = operand gives different results): " + strings.Join(append(sched[n1], sched[n2]...), "; ")
 				}
 			}
 			c.Check(d == "", "C09.R2", cons, "same kernel as "+pr[1], f1.Pos(), d)
@@ -319,6 +325,27 @@ var shadowCombCache = map[string]map[string][]string{}
 
 // shadowCombinatorFailures runs the chain-rule rule of C01 on all combinators of T in a scratch context and returns the
 // violated or undecided obligations per combinator.
+var shadowSchedCache = map[string]map[string][]string{}
+
+// shadowScheduleFailures runs the write-schedule rule of C08 (derivatives of the receiver are overwritten only after
+// every read that needs the old values) on the combinators of T and returns the failures per combinator.
+func shadowScheduleFailures(c *core.Ctx, pkg *packages.Package, T string) map[string][]string {
+	if r, ok := shadowSchedCache[T]; ok {
+		return r
+	}
+	sh := core.NewCtx("C08", c.Tier, c.Repo, c.VerifDir)
+	sh.Fset, sh.Pkgs, sh.Root = c.Fset, c.Pkgs, c.Root
+	checkCombinatorSchedule(sh, pkg, T)
+	r := map[string][]string{}
+	for _, o := range sh.Obls {
+		if o.Verdict != core.Discharged {
+			r[o.Construct] = append(r[o.Construct], o.Detail+": "+o.Msg)
+		}
+	}
+	shadowSchedCache[T] = r
+	return r
+}
+
 func shadowCombinatorFailures(c *core.Ctx, pkg *packages.Package, T string) map[string][]string {
 	if r, ok := shadowCombCache[T]; ok {
 		return r
